@@ -24,9 +24,15 @@ impl Call {
     pub fn code(&self) -> Option<Code> {
         self.out.as_ref().and_then(|o| o.code())
     }
-    /// The call may have taken effect on the server (anything but a definite error).
+    /// The call may have taken effect on the server: anything but a definite rejection. An
+    /// error that only says "the resource went away under me" (FAILED_PRECONDITION / INTERNAL,
+    /// what deltio answers when an actor's mailbox is closed) leaves the effect open: a create
+    /// that raced a delete of the same name did create something.
     pub fn maybe_effective(&self) -> bool {
-        !matches!(self.out, Some(Outcome::Err(_, _)))
+        match &self.out {
+            Some(Outcome::Err(code, _)) => *code == FAILED_PRECONDITION || *code == INTERNAL,
+            _ => true,
+        }
     }
     pub fn ret_seq_or_max(&self) -> u64 {
         self.ret_seq.unwrap_or(u64::MAX)
